@@ -1053,8 +1053,40 @@ fn random_case(ctx: &mut Ctx) {
     ));
 }
 
+/// the parallel (rayon) operations only split the work above `RAYON_MIN_LEN` = 100 000 words:
+/// vectors longer than that, with a word count that is not a multiple of the threshold
+fn large_par_cases(ctx: &mut Ctx) {
+    for len in [64 * 150_000 + 17usize, 64 * 100_000, 64 * 250_001 - 1] {
+        ctx.case();
+        let mut s = fresh();
+        for o in [
+            format!("with_value {} 1", len),
+            "par_count_ones".to_string(),
+            "par_flip".to_string(),
+            "count_ones".to_string(),
+            "par_fill 1".to_string(),
+            "count_zeros".to_string(),
+            "par_count_ones".to_string(),
+            format!("set {} 0", len - 1),
+            format!("set {} 0", len / 2),
+            "par_count_ones".to_string(),
+            "par_reset".to_string(),
+            "count_ones".to_string(),
+            "apar_fill 1".to_string(),
+            "apar_count".to_string(),
+            "apar_flip".to_string(),
+            "count_ones".to_string(),
+            format!("get {}", len - 1),
+        ] {
+            exec(ctx, &mut s, &o);
+        }
+        ctx.shape(format!("large-par:{}", len % 64));
+    }
+}
+
 pub fn run(ctx: &mut Ctx) {
     directed(ctx);
+    large_par_cases(ctx);
     let n = if ctx.tier == Tier::Quick { 1500 } else { 30000 };
     for _ in 0..n {
         random_case(ctx);
